@@ -1500,4 +1500,31 @@ example : ((serveDNS (msgLen true) (msgLen false) {} {} .udp
     { qDO0 with question := { name := 7 + 4294967296 * 3, qtype := 12, qlen := 30 } } (fun q' => some (as112Reply q'))).map
       (fun r => (r.rcode, r.question, r.fl.aa))) = some (3, some { name := 7 + 4294967296 * 3, qtype := 12, qlen := 30 }, true) := by decide
 
+/-! ### the rate limiter's BADCOOKIE, compared with the real handler through `edns ratelimit` -/
+
+/-- **BADCOOKIE respects the client**: it echoes the query, is only ever sent
+to a client that sent an OPT (with a cookie, over UDP, EDNS version 0), and its
+OPT carries COOKIE-coded options only — the client's subnet, keepalive, NSID
+request, padding and unknown options never come back. -/
+theorem ratelimit_badcookie_reply (L Lu : Msg → Nat) (c : Consts) (cfg : Cfg) (proto : Proto) (q : Query) (wb : Bool)
+    (known same allow : Bool) (next : Query → Outcome)
+    (hs : ratelimitStep proto q known same allow = .badcookie) :
+    ratelimitServe L Lu c cfg proto q wb known same allow next = some (badCookieReply q) ∧
+    Echoes q (badCookieReply q) ∧ (badCookieReply q).rcode = rcodeBadCookie ∧ q.opt ≠ none ∧
+    (∀ o own, RR.opt o own ∈ (badCookieReply q).extra → ∀ x ∈ o.options, x.code = codeCookie) := by
+  obtain ⟨_, o, ho, _, _⟩ := (ratelimit_leaves_bad_version proto q known same allow).2 hs
+  refine ⟨by simp [ratelimitServe, hs], ?_, rfl, by rw [ho]; simp, ?_⟩
+  · simp [Echoes, badCookieReply, cancelWithRcode, clientView]
+  · intro o' own ho' x hx
+    simp only [badCookieReply, cancelWithRcode, clientView, if_true, ho, Option.map_some, List.mem_singleton,
+      RR.opt.injEq] at ho'
+    obtain ⟨rfl, _⟩ := ho'
+    simp only [List.mem_filter, beq_iff_eq] at hx
+    exact hx.2
+
+-- non-vacuity: cookie + subnet + unknown option against a remembered other cookie: BADCOOKIE with the completed cookie alone
+example : (ratelimitServe (msgLen true) (msgLen false) {} {} .udp qDO0 false true false true (fun _ => .done none)).map
+    (fun r => (r.rcode, r.extra)) =
+    some (23, [.opt { udp := 4096, options := [.srvCookie [1, 2, 3, 4, 5, 6, 7, 8]] } true]) := by decide
+
 end SdnsVerif.Props.C06
